@@ -13,6 +13,7 @@ from magpylib._src.defaults.defaults_utility import SUPPORTED_PLOTTING_BACKENDS
 from magpylib._src.defaults.defaults_utility import MagicProperties
 from magpylib._src.defaults.defaults_utility import color_validator
 from magpylib._src.defaults.defaults_utility import get_defaults_dict
+from magpylib._src.defaults.defaults_utility import linearize_dict
 from magpylib._src.defaults.defaults_utility import validate_property_class
 from magpylib._src.defaults.defaults_utility import validate_style_keys
 
@@ -720,6 +721,15 @@ class Magnetization(MagicProperties):
             f"but received {repr(val)} instead."
         )
         self._show = val
+
+    def as_dict(self, flatten=False, separator="."):
+        # `size` is only a deprecated alias of `arrow.size`: listing it a second time would make
+        # `update` (as_dict -> merge -> re-apply) overwrite a new arrow size with the old one
+        dict_ = super().as_dict()
+        dict_.pop("size", None)
+        if flatten:
+            dict_ = linearize_dict(dict_, separator=separator)
+        return dict_
 
     @property
     def size(self):
